@@ -54,6 +54,13 @@ type kptrace struct {
 	injected    bool
 	h           *verifHandler
 	waits       int
+	lastPid     int
+	script      []scriptEv // when set, events follow this script instead of being chosen symbolically
+}
+
+type scriptEv struct {
+	proc int    // index into procs
+	ws   uint32 // wait status to report
 }
 
 const wantPtraceOpts = unix.PTRACE_O_TRACESECCOMP | unix.PTRACE_O_EXITKILL | unix.PTRACE_O_TRACEFORK |
@@ -124,7 +131,19 @@ func (k *kptrace) wait4(pid int, wstatus *unix.WaitStatus, options int, rusage *
 	if len(cands) == 0 {
 		return -1, syscall.ECHILD
 	}
-	p := cands[sym.Choose("who", len(cands))]
+	var p *kproc
+	scripted := false
+	var sws uint32
+	if len(k.script) > 0 {
+		ev := k.script[0]
+		k.script = k.script[1:]
+		p = k.procs[ev.proc]
+		sym.Assume(p.exists && p.alive && !p.stopped)
+		scripted, sws = true, ev.ws
+	} else {
+		p = cands[sym.Choose("who", len(cands))]
+	}
+	k.lastPid = p.pid
 	k.events++
 	main := p.pid == k.pgid
 	if k.events > k.budget {
@@ -140,6 +159,9 @@ func (k *kptrace) wait4(pid int, wstatus *unix.WaitStatus, options int, rusage *
 		return p.pid, nil
 	}
 	ws := sym.U32("wstatus")
+	if scripted {
+		ws = sws
+	}
 	switch refKind(ws) {
 	case refExited, refSignaled:
 		sym.Assume(ws&0x80 == 0 && ws>>16 == 0) // no core flag games, no event bits
@@ -267,10 +289,12 @@ func (k *kptrace) kill(pid int, sig syscall.Signal) error {
 }
 
 // traceHarness runs the real trace loop against K-PTRACE with an arbitrary verdict.
-func traceHarness(budget int, nprocs int, esrch bool) {
+func traceHarness(budget int, nprocs int, esrch bool) { traceHarnessS(budget, nprocs, esrch, nil) }
+
+func traceHarnessS(budget int, nprocs int, esrch bool, script []scriptEv) {
 	kern.InstallContext()
 	const pgid = 4242
-	k := &kptrace{pgid: pgid, budget: budget, esrchAt: -1}
+	k := &kptrace{pgid: pgid, budget: budget, esrchAt: -1, script: script}
 	for n := 0; n < nprocs; n++ {
 		k.procs = append(k.procs, &kproc{pid: pgid + n})
 	}
@@ -324,7 +348,8 @@ type hookHandler struct {
 func (h *hookHandler) Debug(v ...interface{}) {}
 func (h *hookHandler) Handle(c *Context) TraceAction {
 	v := h.inner.Handle(c)
-	if p := h.k.proc(c.Pid); p != nil {
+	sym.Assert(c.Pid == h.k.lastPid, "the trap context must designate the tracee that is stopped")
+	if p := h.k.proc(h.k.lastPid); p != nil {
 		p.verdict = v
 		p.sawVerdict = true
 		sym.Assert(p.stopped && p.stopKind == stopSeccomp, "handler consulted outside a seccomp stop")
@@ -340,5 +365,31 @@ func (h *hookHandler) Handle(c *Context) TraceAction {
 }
 
 func VerifC03_Trace_Quick()    { traceHarness(4, 2, false) }
+func VerifC03_Trace_Quick5()   { traceHarness(5, 2, false) }
 func VerifC03_Trace_Thorough() { traceHarness(6, 3, false) }
 func VerifC15_TraceESRCH()     { traceHarness(4, 2, true) }
+
+const (
+	wsTrapSeccomp = uint32(unix.PTRACE_EVENT_SECCOMP)<<16 | 5<<8 | 0x7f
+	wsTrapExec    = uint32(unix.PTRACE_EVENT_EXEC)<<16 | 5<<8 | 0x7f
+	wsTrapFork    = uint32(unix.PTRACE_EVENT_FORK)<<16 | 5<<8 | 0x7f
+	wsTrapClone   = uint32(unix.PTRACE_EVENT_CLONE)<<16 | 5<<8 | 0x7f
+)
+
+// VerifC03_MultiProc: verdicts are enforced in every process and thread of the program:
+// scripted tree main -> fork child -> clone grandchild, a seccomp trap in each of them with
+// an arbitrary verdict (all three use the same handler).
+func VerifC03_MultiProc() {
+	traceHarnessS(10, 3, false, []scriptEv{
+		{0, 0},             // initial SIGSTOP of main (generated by the model)
+		{0, wsTrapExec},    // exec
+		{0, wsTrapSeccomp}, // trap in main
+		{0, wsTrapFork},    // fork
+		{1, 0},             // child's initial stop
+		{1, wsTrapSeccomp}, // trap in child
+		{1, wsTrapClone},   // clone
+		{2, 0},             // thread's initial stop
+		{2, wsTrapSeccomp}, // trap in the thread
+		{0, wsTrapSeccomp}, // trap in main again
+	})
+}
